@@ -798,6 +798,35 @@ fn derive_rows(s: &Synth) -> usize {
     m
 }
 
+/// Constant cache (`native_chip.rs: cached_fixed`): the constants for which the real chip opens
+/// an "Assign fixed" region, in order, against the model's cache.
+fn cache_case<C: Circuit<F>>(ctx: &mut Ctx, name: &str, cs: &[u64], unknown: &C) {
+    let Ok(s) = synth(unknown, true, None) else { return };
+    let log = s.log.as_ref().unwrap();
+    let mut created: Vec<String> = vec![];
+    for it in &log.items {
+        if let Item::Region { name, passes } = it {
+            if name == "Assign fixed" {
+                if let Some(RelEv::Fix(_, _, Some(v))) = passes.last().and_then(|p| p.first()) {
+                    created.push(fe_hex(v));
+                }
+            }
+        }
+    }
+    // index of the cell each request resolves to = position of its value among the created ones
+    let idx: Vec<usize> = cs
+        .iter()
+        .map(|c| created.iter().position(|v| *v == format!("0x{c:x}")).unwrap_or(usize::MAX))
+        .collect();
+    let _ = name;
+    ctx.case(
+        "cache",
+        true,
+        &format!("cache {}", cs.iter().map(|c| c.to_string()).collect::<Vec<_>>().join(" ")),
+        &format!("{} ; {}", mzkh::join(&idx), if created.is_empty() { "-".to_string() } else { created.join(",") }),
+    );
+}
+
 // ---------------------------------------------------------------------------------------------
 
 pub fn run(ctx: &mut Ctx) {
@@ -823,6 +852,8 @@ pub fn run(ctx: &mut Ctx) {
             .collect();
         ctx.count(&format!("op:{}", name.split('(').next().unwrap()));
         let _ = check_family(ctx, &mut srs, &name, &unknown, &knowns, small_limit);
-        let _ = Op::Add;
+        if let Op::FixedSeq(cs) = &op {
+            cache_case(ctx, &name, cs, &unknown);
+        }
     }
 }
